@@ -1,6 +1,6 @@
 (* C42 — compilation is deterministic: the ordered-emission core. Statements only. *)
 From Coq Require Import ZArith List Bool Permutation.
-From CyVerif Require Import Model.M_SortEmit Proof.P_SortEmit.
+From CyVerif Require Import Model.M_Session Proof.P_Session Model.M_SortEmit Proof.P_SortEmit.
 Import ListNotations.
 Open Scope Z_scope.
 
@@ -27,3 +27,77 @@ Example C42_nonvacuous :
   emit (fun c : Z * Z => fst c) snd [(3, 30); (1, 10); (2, 20)] = [10; 20; 30] /\
   emit (fun c : Z * Z => fst c) snd [(2, 20); (3, 30); (1, 10)] = [10; 20; 30].
 Proof. vm_compute. intuition congruence. Qed.
+
+(* ---- the compilation session (Main.py:compile_multiple and its Context) ----
+   A Context caches parsed .pxd scopes whose entries carry `used` marks; a module's declarations are
+   written from the marks.  [session pxds reset fresh ms] is compile_multiple over the sources [ms];
+   reset = true is the code as it is ("context = None" after every source). *)
+Close Scope Z_scope.
+
+(* with the reset, every module of every batch gets exactly its isolated output (parsed .pxd files and
+   written declarations), at whatever position it is compiled ... *)
+Theorem C42_session_reset_isolated :
+  forall pxds ms i m, nth_error ms i = Some m ->
+  nth_error (session pxds true fresh ms) i = Some (isolated pxds m).
+Proof. exact session_reset_nth. Qed.
+Print Assumptions C42_session_reset_isolated.
+
+(* ... hence for every reordering of the batch the (module, output) pairs are the same *)
+Theorem C42_session_reset_order_independent :
+  forall pxds ms ms', Permutation ms ms' ->
+  Permutation (combine ms (session pxds true fresh ms)) (combine ms' (session pxds true fresh ms')).
+Proof. exact session_reset_order_independent. Qed.
+Print Assumptions C42_session_reset_order_independent.
+
+(* without the reset: position |prefix| of the session is [after prefix m], which writes exactly the
+   always-written entries of the cimported scopes, the entries m marks, and the entries ANY EARLIER
+   module marked; and parses only the .pxd files no earlier module loaded *)
+Theorem C42_session_noreset_output :
+  forall pxds prefix m rest,
+  nth_error (session pxds false fresh (prefix ++ m :: rest)) (length prefix) = Some (after pxds prefix m) /\
+  (forall p i, In (p, i) (snd (after pxds prefix m)) <->
+     In p (map fst m) /\ i < length (entries_of pxds p) /\
+     (nth i (entries_of pxds p) KAlways = KAlways \/ In (p, i) (uses_of m) \/
+      exists m', In m' prefix /\ In (p, i) (uses_of m'))) /\
+  (forall q, In q (fst (after pxds prefix m)) <->
+     In q (map fst m) /\ forall m', In m' prefix -> ~ In q (map fst m')).
+Proof.
+  intros. split; [apply session_noreset_nth|]. split; intros; [apply after_out_spec|apply after_parsed_spec].
+Qed.
+Print Assumptions C42_session_noreset_output.
+
+(* so a kept context is invisible for batches that share no .pxd (the only batches the check
+   compiled before) ... *)
+Theorem C42_session_noreset_disjoint_isolated :
+  forall pxds prefix m,
+  (forall m' p, In m' prefix -> In p (map fst m') -> ~ In p (map fst m)) ->
+  snd (after pxds prefix m) = snd (isolated pxds m).
+Proof. exact after_eq_isolated_disjoint. Qed.
+Print Assumptions C42_session_noreset_disjoint_isolated.
+
+(* ... and visible in EVERY batch where an earlier module marks a used-only entry of a scope that m
+   cimports and does not mark itself: the full property ("the output of m does not depend on the
+   prefix") is false for the variant without reset *)
+Theorem C42_session_noreset_depends_on_prefix :
+  forall pxds prefix m m' p i,
+  In m' prefix -> In (p, i) (uses_of m') -> In p (map fst m) ->
+  i < length (entries_of pxds p) -> nth i (entries_of pxds p) KAlways = KUsed ->
+  ~ In (p, i) (uses_of m) ->
+  snd (after pxds prefix m) <> snd (isolated pxds m).
+Proof. exact after_neq_isolated. Qed.
+Print Assumptions C42_session_noreset_depends_on_prefix.
+
+Theorem C42_session_noreset_refuted :
+  exists pxds a b,
+    nth_error (session pxds false fresh [a; b]) 1 <> Some (isolated pxds b) /\
+    nth_error (session pxds false fresh [b; a]) 0 = Some (isolated pxds b) /\
+    nth_error (session pxds true fresh [a; b]) 1 = Some (isolated pxds b).
+Proof. exact noreset_depends_on_prefix_refuted. Qed.
+Print Assumptions C42_session_noreset_refuted.
+
+Example C42_session_nonvacuous :
+  let pxds := [[KAlways; KUsed; KUsed]; [KUsed]] in
+  let a := [(0, [1]); (1, [0])] in let b := [(0, [2])] in
+  session pxds true fresh [a; b] = [([0; 1], [(0, 0); (0, 1); (1, 0)]); ([0], [(0, 0); (0, 2)])] /\
+  session pxds false fresh [a; b] = [([0; 1], [(0, 0); (0, 1); (1, 0)]); ([], [(0, 0); (0, 1); (0, 2)])].
+Proof. vm_compute. split; reflexivity. Qed.
